@@ -14,6 +14,9 @@ import (
 // libraryRoot returns the directory of the library the checker is built against.
 func libraryRoot() string {
 	root := "/repo"
+	if r := os.Getenv("VERIF_REPO"); r != "" {
+		return r
+	}
 	if b, err := os.ReadFile(filepath.Join(report.Root, "mc", "go.mod")); err == nil {
 		for _, line := range strings.Split(string(b), "\n") {
 			if strings.HasPrefix(strings.TrimSpace(line), "replace github.com/antonmedv/expr =>") {
